@@ -259,9 +259,9 @@ class Minor(object):
         >>> epoch = Epoch(1998, 8, 5.0)
         >>> ra, dec, p = minor.geocentric_position(epoch)
         >>> print(ra.ra_str(n_dec=1))
-        5h 45' 34.5''
+        5h 45' 33.6''
         >>> print(dec.dms_str(n_dec=0))
-        23d 23' 53.0''
+        23d 23' 52.0''
         >>> print(round(p, 2))
         45.73
         """
